@@ -106,7 +106,11 @@ def C06():
             # the exact ID pattern matters where the matrix has nothing but IDs to order cells (no stored barcode)
             [{"unit": "c06_g2", "args": ["--cfg", n, "--uni", "tri", "--ids", "default", "--key", "summary", "--budget", "250"],
               "cores": 1, "timeout": 400} for n in ("chain.cont.nobar.map.iset", "chain.cont.nobar.vec.iset")] +
-            runs(CHAIN_STRUCT, ["--uni", "tri", "--ids", "explicit", "--key", "semantic", "--budget", "250"], timeout=400)
+            runs(CHAIN_STRUCT, ["--uni", "tri", "--ids", "explicit", "--key", "semantic", "--budget", "250"], timeout=400) +
+            # triangle + edge (9 cells) to closure for one RU option set per indexing scheme: the positive-then-negative
+            # branch with a non-zero U entry needs a 4th edge (a seeded change in its return value was only seen here)
+            [{"unit": "c06_g%d" % g, "args": ["--cfg", n, "--uni", "tri1", "--ids", "default", "--key", "semantic", "--budget", "400"],
+              "cores": 4, "timeout": 600} for g, n in ((0, "ru.cont.bar.map.iset"), (1, "ru.id.nobar.map.iset"))]
         ),
         "thorough": (
             runs(ALL, ["--uni", "tri", "--ids", "default", "--key", "summary", "--validate", "300", "--budget", "1500"],
